@@ -16,7 +16,10 @@ Next == \E op \in Ops(st) : \E r \in Steps(st, op, Devs) :
 \* random walks: TLC -simulate picks one successor per step; EmitEnd prints the walk when it is complete
 \* progress-biased: a walk may contain at most MaxFails failing operations (every operation is enabled everywhere,
 \* uniform choice would spend the depth on failing self-loops)
-WalkOps == {op \in Ops(st) : \E r \in Steps(st, op, Devs) : ~IsErr(r) \/ nf < MaxFails}
+\* with a db_path ("persist") every sixth operation of a walk is the shut-down and re-opening of the instance (as one
+\* operation among ~300 it would hardly ever be drawn)
+WalkOps == LET base == {op \in Ops(st) : \E r \in Steps(st, op, Devs) : ~IsErr(r) \/ nf < MaxFails} IN
+           IF "persist" \in Feat /\ Len(hist) % 6 = 5 THEN {op \in base : op.k = "restart"} ELSE {op \in base : op.k # "restart"}
 \* random walks (-simulate): ordinary steps up to Depth operations, then one step that prints the walk (exactly one
 \* candidate successor there, so exactly one line per walk)
 WalkStep == \E op \in WalkOps : \E r \in Steps(st, op, Devs) :
